@@ -130,7 +130,7 @@ def run(ctx):
     ctx.trusted += [t_ for t_ in RR.TRUSTED if t_ not in ctx.trusted]
     ctx.rules.append('R10 (one symbolic operand) on PxE2<N> + - * / mul_add family and PxE1<N> * / for N in {8, 32} (thorough: {8, 16, 32})')
     tasks = []
-    widths = (8, 16, 32) if ctx.tier == 'thorough' else (8, 32)
+    widths = (8, 16, 20, 32) if ctx.tier == 'thorough' else (8, 20, 32)     # 20: wide enough for every branch, narrow enough to stay clear of the known N >= 31 overflow sites
     for xty in XTYS:
         for n in widths:
             fmt = RR.Fmt('%s<%d>' % (xty.name, n), n, xty.es, xty.tykey, pad=32 - n, gargs={'N': n})
@@ -138,10 +138,10 @@ def run(ctx):
             sc = list(range(-maxs, maxs))
             if n == 32:
                 sc = [s_ for s_ in sc if s_ % 4 in (0, 3) and (ctx.tier == 'thorough' or (s_ >> 2) % 4 == 0)]
-            elif n == 16 or ctx.tier == 'quick':
+            elif n in (16, 20) or ctx.tier == 'quick':
                 sc = sc[::2]
             chunk = 6
-            if xty is PX2:
+            if xty is PX2 and not (n == 20 and ctx.tier == 'quick'):
                 for opn, tr in (('add', 'core::ops::Add'), ('sub', 'core::ops::Sub')):
                     path, _ = prog.find_impl_method(tr, xty.tykey, opn)
                     if path:
@@ -154,7 +154,7 @@ def run(ctx):
                         for i in range(0, len(sc), chunk):
                             for v in range(len(RR.FMA_VARIANTS[fname])):
                                 tasks.append((RR.check_fma, ('R10', '%s::%s' % (xty.name, fname), path, fmt, fname, v, False), dict(scales=sc[i:i + chunk][::2], t=0 if v else -3)))
-            tsel = {8: [-9, -2, 0, 1, 5], 16: [-30, -7, 0, 3, 21], 32: [-100, -17, 0, 8, 77]}[n]
+            tsel = {8: [-9, -2, 0, 1, 5], 16: [-30, -7, 0, 3, 21], 20: [-70, -66, -62, -30, 0, 13, 58, 64, 68], 32: [-100, -17, 0, 8, 77]}[n]
             for opn, tr in (('mul', 'core::ops::Mul'), ('div', 'core::ops::Div')):
                 path, _ = prog.find_impl_method(tr, xty.tykey, opn)
                 if path:
